@@ -48,8 +48,12 @@ class Inputs:
         self.a = Signal(2, name="a")
         self.b = Signal(signed(2), name="b")
 
-    def expr(self, name):
+    def expr(self, name, sigs=None):
         a, b = self.a, self.b
+        if name == "p3":          # the register s3 of the program itself (its value before the edge)
+            return sigs[3]
+        if name == "p30":
+            return sigs[3][0]
         return {
             "a": a, "b": b, "a0": a[0], "bneg": b < 0, "aeqb": a == b, "c5": Const(5, 3), "cm1": Const(-1, signed(1)),
             "cm3": Const(-3, signed(3)), "apb": a + b, "z0": Const(0, 0), "wide": Cat(a, b),
@@ -66,10 +70,10 @@ def target(t, sigs, inp):
         return Cat(*[target(x, sigs, inp) for x in t["xs"]])
     if k == "part":
         x = target(t["x"], sigs, inp)
-        off = inp.expr(t["off"])
+        off = inp.expr(t["off"], sigs)
         return x.bit_select(off, t["w"]) if t["stride"] == 1 else x.word_select(off, t["w"])
     if k == "arr":
-        return Array([target(x, sigs, inp) for x in t["xs"]])[inp.expr(t["idx"])]
+        return Array([target(x, sigs, inp) for x in t["xs"]])[inp.expr(t["idx"], sigs)]
     if k == "rei":
         x = target(t["x"], sigs, inp)
         return x.as_signed() if t["s"] else x.as_unsigned()
